@@ -378,7 +378,11 @@ class VProcess:
         sim = w.sim
         if prog in ("sbatch", "squeue", "scancel"):
             alts = [""]
-            if prog == "squeue" and any(b.state == "CANCELLED" for b in sim.batches.values()):
+            if (prog == "squeue" and any(b.state == "CANCELLED" for b in sim.batches.values())
+                    and any(v is not vp and v.kind == "user" and v.status == "ready" and v.pending is not None
+                            and v.pending.kind == "start" for v in w.vprocs)):
+                # (offered only while a later user command will query again, so that the lingering
+                # state cannot be the last thing JADE ever sees)
                 # a cancelled batch lingers in squeue for a while: zero-cost choice per query
                 alts = ["", "show-cancelled"]
             detail = prog + " " + " ".join(
@@ -412,6 +416,8 @@ class VProcess:
         # a user lifecycle command (setup/teardown/node hooks, auto-config): recorded, answered
         cmdline = " ".join(argv)
         rc = w.scen.get("hook_exit", {}).get(argv[0], 0)
+        if len(argv) > 1:
+            rc = w.scen.get("hook_exit_by_kind", {}).get(argv[1], rc)
         h = w.scen.get("hook_handler")
         if h is not None:
             r = h(w, vp, argv, dict(env) if env is not None else dict(vp.env), cwd)
